@@ -40,7 +40,8 @@ PROPS = {
     ),
     "C05": dict(
         engine="e1", level="exploration",
-        phases=[dict(engine="e1", test="TestWorker")],
+        phases=[dict(engine="e1", test="TestWorker", share=0.8),
+                dict(engine="e1", race=True, test="TestRaceSweep", share=0.2)],
         rule="one evaluation = one seeded run: 2-6 simulated clients x 2-7 commands over 1-3 shared keys, every lock "
              "acquisition a tape-chosen scheduling point, history checked by porcupine against the reference model plus "
              "auditor read-back and structural self-check; non-trivial = at least one preemption of an enabled task and one "
@@ -150,6 +151,8 @@ PROPS["C13"] = dict(
 )
 PROPS["C19"] = dict(
     engine="e1", level="exploration",
+    phases=[dict(engine="e1", test="TestWorker", share=0.8),
+            dict(engine="e1", race=True, test="TestRaceSweep", share=0.2)],
     rule="one evaluation = one seeded run: 1-4 subscriber connections, 1-3 publishers, 1-3 channels, unique payloads, abrupt "
          "disconnects; every write to a subscriber connection is a scheduling point; oracle = per-subscriber delivery log vs "
          "publish history (exactly once, intact, right channel, order of non-overlapping publishes, completeness for stable "
